@@ -1,6 +1,6 @@
 (** Correspondence check for C13 (redirect routes). *)
 From Coq Require Import String List NArith ZArith Bool.
-From Fabio Require Import Lib.Outcome Lib.Bytes Lib.Verdict Model.Redirect Model.RedirectSpec Model.RedirectTag.
+From Fabio Require Import Lib.Outcome Lib.Bytes Lib.Verdict Model.Redirect Model.RedirectSpec Model.RedirectTag Model.RedirectProto.
 Import ListNotations.
 Local Open Scope N_scope.
 
@@ -64,7 +64,13 @@ Inductive case :=
    service whose target Table.lookup yields.  The model side is computed from the TEXT of the
    tag ([tag_target]), not from the route command. *)
 | CConsul (prefix : str) (tags : list (str * option target * option target)) (cands : list (option nat))
-          (wire : str) (q : request) (impl : response) (hits : nat).
+          (wire : str) (q : request) (impl : response) (hits : nat)
+(* round 6: a request given by its header fields AS SENT (X-Forwarded-Proto absent / http / https,
+   Forwarded absent / without proto / with proto, several lines, any spelling) on a plain or a TLS
+   connection, through HTTPProxy.ServeHTTP over the real Table.Lookup (request parsed by
+   net/http from the wire text, or sent over a real plain / TLS socket) *)
+| CServeP (hs : headers) (cands : list (option target)) (host wire path rawpath query : str) (tls : bool)
+          (impl : response) (hits : nat).
 
 Fixpoint list_all2 {A B} (f : A -> B -> bool) (a : list A) (b : list B) : bool :=
   match a, b with
@@ -203,4 +209,22 @@ Definition check_case (c : case) : N :=
       let '(rs, region) := response_spec q wire mcands impl in
       let spec := rs && Nat.eqb hits (match impl with RProxy _ => 1 | _ => 0 end) in
       verdict same spec region (match m with RRedirect _ _ => true | _ => false end)
+  | CServeP hs cands host wire path rawpath query tls impl hits =>
+      let m := handle_full hs host path rawpath query tls cands in
+      let same := response_eqb impl m && Nat.eqb hits (upstream_calls m)
+                  && opt_pair_eqb (set_path wire) (Some (path, rawpath)) in
+      (* judged on the specification's own reading of the header fields ([said_x], [said_f], the
+         decision table [own_scheme_said]) with the reference loop for that scheme; the text of
+         the Location by [loc_spec] *)
+      let sq := said_request hs host path rawpath query tls in
+      let own := own_scheme_said (said_x hs) (said_f hs) tls in
+      let kind := answer_kind_eqb impl (ref_answer_own own sq cands)
+                  && match impl with RRedirect c _ => code_ok c | RBadCode _ => false | _ => true end in
+      let '(ok, region) := match impl, ref_lookup_own own sq cands with
+                           | RRedirect _ loc, Some t => loc_spec t wire sq loc
+                           | _, _ => (true, None)
+                           end in
+      let spec := kind && ok && Nat.eqb hits (match impl with RProxy _ => 1 | _ => 0 end) in
+      let said := match said_x hs, said_f hs with XNone, FNone => false | _, _ => true end in
+      verdict same spec region (said && Nat.ltb 1 (length (somes cands)))
   end.
